@@ -62,6 +62,11 @@ func acceptorSelfTest() string {
 		{"hook refusal unanswered", hookCase, []event{RQ, R(0, ""), ack, RQ, R(1, "1"), RQ, EOF}, "must be answered by exactly one error(1)", ""},
 		{"hook refusal answered twice", hookCase, []event{RQ, R(0, ""), ack, RQ, R(1, "1"), W("error", "1", hookErrPayload), W("error", "1", hookErrPayload), RQ, EOF}, "must be answered by exactly one error(1)", ""},
 		{"hook refusal closes", hookCase, []event{RQ, R(0, ""), ack, RQ, R(1, "1"), C(4409)}, "must be answered by error(1), but the server closed", ""},
+		{"tws: client-sent next closes with 4400 (clean)", Case{Proto: protoTWS, Msgs: []Msg{{K: "init"}, {K: "srvtype", ID: "1", V: 3}}}, []event{RQ, R(0, ""), ack, RQ, R(1, "1"), C(4400)}, "", ""},
+		{"tws: client-sent next swallowed", Case{Proto: protoTWS, Msgs: []Msg{{K: "init"}, {K: "srvtype", ID: "1", V: 3}}}, []event{RQ, R(0, ""), ack, RQ, R(1, "1"), RQ, EOF}, "server-only type \"next\" (message #1) must close the connection with 4400", ""},
+		{"tws: client-sent connection_ack before init swallowed", Case{Proto: protoTWS, Msgs: []Msg{{K: "srvtype", ID: "1", V: 1}, {K: "init"}}}, []event{RQ, R(0, "1"), RQ, R(1, ""), ack, RQ, EOF}, "server-only type \"connection_ack\" (message #0) must close the connection with 4400", ""},
+		{"gws: client-sent data answered with connection_error (clean)", Case{Proto: protoGWS, Msgs: []Msg{{K: "init"}, {K: "srvtype", ID: "1", V: 6}}}, []event{RQ, R(0, ""), ack, RQ, R(1, "1"), W("connection_error", "1", `"unexpected message type: data"`), RQ, EOF}, "", ""},
+		{"gws: client-sent data swallowed", Case{Proto: protoGWS, Msgs: []Msg{{K: "init"}, {K: "srvtype", ID: "1", V: 6}}}, []event{RQ, R(0, ""), ack, RQ, R(1, "1"), RQ, EOF}, "must be answered by exactly one connection_error", ""},
 		// recogniser narrowness: what the echo of a client complete is attributed to
 		{"stop echo for a finished query", Case{Proto: protoTWS, Msgs: []Msg{{K: "init"}, sub("1", q), {K: "complete", ID: "1"}}}, append(append([]event{}, okQ[:13]...), R(2, "1"), W("complete", "1", ""), RQ, EOF), "second terminal", fStop},
 		{"stop echo for a failed subscription", Case{Proto: protoTWS, Msgs: []Msg{{K: "init"}, sub("1", Script{Op: "subscription", End: "error", Gate: -1, Rel: -1}), {K: "complete", ID: "1"}}}, []event{RQ, R(0, ""), ack, RQ, R(1, "1"), RQ, X(evXS, 1), {K: evXR, M: 1, ID: "1", Err: true}, W("error", "1", `[{"message":"boom"}]`), R(2, "1"), W("complete", "1", ""), RQ, EOF}, "second terminal", fFailed},
